@@ -53,6 +53,7 @@ class Mon:
         for name in AREA:
             monitor.attach(getattr(F, name), "get_impulse_response", post=self.post_npwin)
         monitor.attach(F.GammaWindow, "get_impulse_response", post=self.post_gamma)
+        monitor.attach(F.GammaWindow, "__init__", post=self.post_gamma_init)
         monitor.attach(U, "circshift_fourier", post=self.post_circ, pre=self.pre_circ, is_method=False)
         monitor.attach(U, "gauss_quant", post=self.post_gauss, is_method=False)
 
@@ -90,6 +91,23 @@ class Mon:
         self.hist.observe(c.self, c.result, "%s.get_impulse_response" % name, cls=name, width=width)
 
     # ---- gamma window
+    def post_gamma_init(self, c):
+        """order and peak are documented public attributes: right after construction they read what was given"""
+        if c.exc is not None:
+            return
+        kw = dict(zip(("order", "peak"), c.args))
+        kw.update(c.kwargs)
+        self.rec.count("gamma_constructions")
+        for k, v in kw.items():
+            if v is None:
+                continue
+            try:
+                got = getattr(c.self, k)
+            except Exception as e:
+                got = e
+            if not (isinstance(got, (int, float, np.integer, np.floating)) and got == v):
+                self.v("GammaWindow(%s=%r): the attribute %s reads %r" % (k, v, k, got), check="gamma_attribute", order=kw.get("order"), peak=kw.get("peak"))
+
     def post_gamma(self, c):
         width = c.args[0] if c.args else c.kwargs.get("width")
         g = c.self
@@ -111,7 +129,7 @@ class Mon:
                 self.v("GammaWindow(1) = %r" % w, check="gamma_w1", order=g.order, peak=g.peak, width=width)
             return
         n, peak = int(g.order), float(g.peak)
-        if not (n >= 1 and 0 < peak < 1):
+        if not (n >= 1 and 0 <= peak < 1):
             self.rec.count("gamma_out_of_scope")
             return
         self.rec.nt(("gamma", n, peak, width))
@@ -131,7 +149,7 @@ class Mon:
                 self.v("GammaWindow(order=%d, peak=%r)(%d)[%r] = %r, reversed gamma density = %r" % (n, peak, width, i, float(w[i]), float(ref[i])),
                        check="gamma_density", order=n, peak=peak, width=width)
             k = int(np.argmax(w))
-            if abs(k - (peak * width - 1)) > 1.0 + 1e-9:
+            if abs(k - max(0.0, peak * width - 1)) > 1.0 + 1e-9:
                 self.v("GammaWindow(order=%d, peak=%r)(%d) arg-max at %d, expected about %r" % (n, peak, width, k, peak * width - 1),
                        check="gamma_argmax", order=n, peak=peak, width=width)
         else:
@@ -282,6 +300,8 @@ def run_case(case, rec, mon=None):
             if rng.random() < 0.06:
                 order = int(rng.choice([12, 22, 25, 40]))  # extreme but valid
             peak = float(rng.uniform(0.1, 0.95))
+            if rng.random() < 0.08:
+                peak = [0, 0.0, np.float64(0.0)][int(rng.integers(3))]  # the maximum on the first sample
             width = int(rng.choice([0, 1, 2, 3, 4, 5, int(rng.integers(6, 64)), int(rng.integers(64, 1200))]))
             F.GammaWindow(order, peak).get_impulse_response(width)
         F.GammaWindow().get_impulse_response(int(rng.integers(2, 500)))
